@@ -15,7 +15,13 @@ Inductive c05case :=
 | C05FaultM (mode k m : Z) (first_ids_sorted : list Z) (pairs : list (Z * Z))
 (* a slow reader: what was sent to call A / what A received when it finally drained everything (-1 = clean end,
    -2 = RecvMsg still pending, -3 = an error), the same for a call B that kept up *)
-| C05Order (sentA gotA sentB gotB : list Z).
+| C05Order (sentA gotA sentB gotB : list Z)
+(* the width of the id allocator (TestC05Wide; white-box: the verif accessor VerifSetIdCounter sets the allocation counter
+   of a connection to `base` while the calls with the ids `live` are in flight - the model's state `next_id = base`,
+   reached there by `base` allocations, C05_counter -; `ids` = the ids on the first envelopes of the calls started
+   afterwards, in order of creation; pairs = (request token, reply token) of the unary ones, the peer answering under
+   the request's id; sent / got = what the long-lived FIRST stream was sent and what it received afterwards *)
+| C05Wide (base : Z) (live ids : list Z) (pairs : list (Z * Z)) (sent got : list Z).
 
 Fixpoint increasing (l : list Z) : bool :=
   match l with x :: ((y :: _) as t) => (x <? y) && increasing t | _ => true end.
@@ -65,6 +71,32 @@ Definition fault_model (mode k m : nat) : option (list Z * list (Z * Z)) :=
 
 Definition pairs_eqb (a b : list (Z * Z)) : bool := list_eqb (fun x y => (fst x =? fst y) && (snd x =? snd y)) a b.
 
+Fixpoint nodupZ (l : list Z) : bool :=
+  match l with [] => true | x :: t => negb (existsb (Z.eqb x) t) && nodupZ t end.
+
+Definition two64 : Z := 18446744073709551616.
+
+Definition check_wide (base : Z) (live ids : list Z) (pairs : list (Z * Z)) (sent got : list Z) : list nat :=
+  (* reason 1: the model (C05_counter): the n-th allocation after the counter stood at base is base + n, as a 64-bit value,
+     under the hypothesis of C05_unique that the counter stays below 2^64 (a history outside it is not judged) *)
+  (if (base + Z.of_nat (length ids) <? two64) then
+     (if list_eqb Z.eqb ids (map (fun i => base + 1 + Z.of_nat i) (seq 0 (length ids))) then [] else [1%nat])
+   else []) ++
+  (* reason 2: the statement itself: pairwise distinct, distinct from every call still alive, never 0 *)
+  (if nodupZ (live ++ ids) && forallb (fun i => 0 <? i) ids then [] else [2%nat]) ++
+  (if list_eqb Z.eqb sent got then [] else [4%nat]) ++
+  (if forallb (fun p => snd p =? fst p + 1) pairs then [] else [9%nat]).
+
+Example wide_ok : check_wide 4294967293 [1] [4294967294; 4294967295; 4294967296; 4294967297] [(5, 6)] [7; 8] [7; 8] = [].
+Proof. vm_compute. reflexivity. Qed.
+(* a 32-bit allocator: wraps to 0 and then collides with the live first stream *)
+Example wide_bad_32 : check_wide 4294967293 [1] [4294967294; 4294967295; 0; 1] [] [] [] = [1; 2]%nat.
+Proof. vm_compute. reflexivity. Qed.
+Example wide_bad_32_far : check_wide 4294967301 [1] [6; 7] [] [] [] = [1]%nat.
+Proof. vm_compute. reflexivity. Qed.
+Example wide_bad_stolen : check_wide 10 [1] [11] [(5, 9)] [7] [] = [4; 9]%nat.
+Proof. vm_compute. reflexivity. Qed.
+
 Definition check_c05 (c : c05case) : list nat :=
   match c with
   | C05Step cc => (if agrees cc then [] else [1%nat]) ++ reasons_in [2; 3; 4; 5]%nat cc
@@ -82,6 +114,7 @@ Definition check_c05 (c : c05case) : list nat :=
   | C05Order sa ga sb gb =>
       (* position by position: per-call order preserved, nothing lost, nothing duplicated, the end last *)
       if list_eqb Z.eqb sa ga && list_eqb Z.eqb sb gb then [] else [4%nat]
+  | C05Wide base live ids pairs sent got => check_wide base live ids pairs sent got
   end.
 
 Fixpoint find_bad_from (i : nat) (cs : list c05case) : list (nat * list nat) :=
